@@ -772,7 +772,8 @@ class EventGenerator:
         for key, val in value.attributes.items():
             yield XmlWriterEvent.ATTR, key, val
 
-        yield XmlWriterEvent.DATA, value.text
+        # An empty text must not drop a xsi:nil attribute of the element
+        yield XmlWriterEvent.DATA, value.text or None
 
         for child in value.children:
             yield from self.convert_any_type(child, var, namespace)
